@@ -89,6 +89,7 @@ type FuncGen struct {
 	defers   []*ssa.Defer
 	cur      *State // state while executing a block
 	curBlock *ssa.BasicBlock
+	curInstr ssa.Instruction
 	ancCache map[int]map[int]bool
 	curGuard string
 	seed     []string
